@@ -459,6 +459,39 @@ theorem tableOk_fresh (src : List Char) (k : Kind) (refs : Refs.RefMap) :
   · intro hc
     exact (hnt _ ((List.dropWhile_sublist _).subset hc)).1 rfl
 
+/-- the block-quote rewriting of an entry keeps it `LineOk` and leaves a non-negative indent -/
+theorem bqRewrite_spec {src : List Char} {o o' : LineOffset} {rest : List Char} {le : Bool}
+    (h : bqRewrite src o rest = .ok (o', le)) :
+    (LineOk src o → LineOk src o') ∧ 0 ≤ o'.indentNonspace := by
+  unfold bqRewrite at h
+  crack h
+  subst_vars
+  refine ⟨fun hl => ?_, by simp⟩
+  exact lineOk_rewrite hl ‹liftL (Lines.slice _ _ _) = _› (fn := _) (ind := _)
+    ‹liftL (Lines.findIndentOf _ _) = _› _
+
+/-- the list-item rewriting of an entry keeps it `LineOk`; the item's first line is then blank or at
+    a non-negative indent relative to the item's content indent -/
+theorem itemRewrite_spec {src : List Char} {o o' : LineOffset} {pos indent : Nat} {re : Bool}
+    (h : itemRewrite src o pos = .ok (o', indent, re)) :
+    (LineOk src o → LineOk src o') ∧
+    (o'.firstNonspace ≥ o'.lineEnd ∨ (indent : Int) ≤ o'.indentNonspace) := by
+  unfold itemRewrite at h
+  crack h
+  rename_i hneg ltxt hltxt rel hrel fi hfi lineLen hlen ho' hind
+  subst ho' hind
+  obtain ⟨hle, rfl⟩ := psub_ok hlen
+  refine ⟨fun hl => lineOk_rewrite hl hltxt (fn := fi.2) (ind := fi.1) hfi _, ?_⟩
+  by_cases hre : (fi.2 == o.lineEnd - o.lineStart) = true
+  · left
+    simp at hre
+    simp [hre]; omega
+  · right
+    have h4 : (if fi.1 > 4 then 1 else fi.1) ≤ fi.1 := by split <;> omega
+    simp only [hre, if_false, Bool.false_eq_true]
+    generalize (if fi.1 > 4 then 1 else fi.1) = k at h4
+    omega
+
 /-- `0 ≤ line_indent(line)`, the condition under which the tokenizer runs the chain -/
 def IndentOk (s : BState) : Prop := ∃ i, s.lineIndent s.line = .ok i ∧ 0 ≤ i
 
@@ -670,8 +703,7 @@ theorem bqScan_spec {test : Test} (ht : TestPure test) :
     · exact bq_stop _ _ _
     · refine bq_step ‹BState.setOff _ _ _ = _› ‹BState.off _ _ = _› (by omega) ?_ (ih _ _ _ _ _ _ _ h)
       intro hT
-      exact lineOk_rewrite (hT _ _ (off_ok ‹BState.off _ _ = _›)) ‹liftL (Lines.slice _ _ _) = _›
-        (fn := _) (ind := _) ‹liftL (Lines.findIndentOf _ _) = _› _
+      exact (bqRewrite_spec ‹bqRewrite _ _ _ = _›).1 (hT _ _ (off_ok ‹BState.off _ _ = _›))
     · exact bq_stop _ _ _
     · -- a terminating rule, `blk_indent ≠ 0`
       have e := ht _ _ ‹test _ = _›
@@ -708,10 +740,12 @@ theorem bqScan_first {test : Test} (ht : TestPure test) {fuel : Nat} {S : BState
         Bool.false_eq_true, not_false_eq_true, and_self] at h
       crack h
       obtain ⟨hm, rfl⟩ := setOff_ok ‹BState.setOff _ _ _ = _›
+      have hnn := (bqRewrite_spec ‹bqRewrite _ _ _ = _›).2
       obtain ⟨_, h2, _, h4, _, _⟩ := bqScan_spec ht _ _ _ _ _ _ _ _ h
       refine ⟨by omega, ?_⟩
       rw [h4 m (by omega)]
       simp [List.getElem?_set, hm]
+      exact hnn
 
 theorem lineIndent_of_off {s : BState} {m : Nat} {o : LineOffset} (h : s.offs[m]? = some o) :
     s.lineIndent m = .ok (o.indentNonspace - (s.blkIndent : Int)) := by
@@ -805,25 +839,19 @@ theorem listItem_spec {tok : Tok} (hk : TokSpec tok) {S S' : BState} {m pos : Na
     Frame S S' ∧ m < S'.line ∧ (TableOk S → S'.line ≤ S.lineMax) := by
   unfold listItem at h
   crack h
-  rename_i o ho hneg ltxt hltxt rel _ fi hfi lineLen hlen S2 hS2 S3 hbody _ li hli S5 hS5 e _ r _ hS' _ _
+  rename_i o ho rw hrw S2 hS2 S3 hbody _ li hli S5 hS5 e _ r _ hS' _ _
+  obtain ⟨o', indent, re⟩ := rw
   subst hS'
   obtain ⟨hm, hS2eq⟩ := setOff_ok hS2
   obtain ⟨hm5, rfl⟩ := setOff_ok hS5
   have ho' := off_ok ho
-  obtain ⟨hle, rfl⟩ := psub_ok hlen
+  obtain ⟨hok, hc⟩ := itemRewrite_spec hrw
+  simp only at hS2 hS2eq hbody
   -- the item's first line in the nested state: empty, or at a non-negative indent
   have hcond : S2.isEmpty m = true ∨ IndentOk { S2 with line := m } := by
-    refine item_cond (x := _) (by rw [hS2eq]; simp [hm]; rfl) ?_
+    refine item_cond (x := o') (by rw [hS2eq]; simp [hm]) ?_
     rw [hS2eq]
-    by_cases hre : (fi.2 == o.lineEnd - o.lineStart) = true
-    · left
-      simp at hre
-      simp [hre]; omega
-    · right
-      have h4 : (if fi.1 > 4 then 1 else fi.1) ≤ fi.1 := by split <;> omega
-      simp only [hre, if_false, Bool.false_eq_true]
-      generalize (if fi.1 > 4 then 1 else fi.1) = k at h4
-      omega
+    exact hc
   obtain ⟨hfr, hlt', hle'⟩ := listItemBody_spec hk hbody (by rw [hS2eq]; exact hline)
     (by rw [hS2eq]; exact hlt) hcond
   have hli' : some li = some S.blkIndent := by rw [← hli, hfr.listIndent, hS2eq]
@@ -841,8 +869,8 @@ theorem listItem_spec {tok : Tok} (hk : TokSpec tok) {S S' : BState} {m pos : Na
   · simpa using hlt'
   · intro hT
     have hT2 : TableOk S2 := by
-      refine TableOk.setOff (s := { S with nodeKind := .listItem, children := [], listIndent := some S.blkIndent, blkIndent := _, tight := true }) (fun k o ho => hT k o ho) hS2 ?_
-      exact lineOk_rewrite (hT _ _ ho') hltxt (ind := fi.1) (fn := fi.2) hfi _
+      refine TableOk.setOff (s := { S with nodeKind := .listItem, children := [], listIndent := some S.blkIndent, blkIndent := indent, tight := true }) (fun k o ho => hT k o ho) hS2 ?_
+      exact hok (hT _ _ ho')
     simpa [hS2eq] using hle' hT2
 
 theorem listContinue_spec {test : Test} (ht : TestPure test) {ordered : Bool} {mc : Char}
